@@ -444,12 +444,55 @@ def shape_oracle(ctx, xt):
                              "shapes broadcast over batch dimensions")
 
 
+def scale_oracle(ctx, xt):
+    """a wrapped dense matrix describes ONE matrix whatever the magnitude of its entries: the automatic Hermitian flag of
+    LinearOperator.m, rmv / .H and a false Hermiticity claim are decided relative to the size of the entries (finding F33:
+    torch.allclose's absolute tolerance 1e-8 flagged every small non-symmetric matrix as Hermitian, so .H and rmv were
+    the operator itself)"""
+    rng = ctx.rng
+    for rep in range(ctx.n(24, 200)):
+        g = torch.Generator().manual_seed(rng.randrange(1 << 30))
+        n = rng.choice([2, 3, 4])
+        amp = rng.choice([1e-12, 1e-9, 1e-8, 1e-4, 1.0, 1e6])
+        dtype = rng.choice([torch.float64, torch.complex128])
+        herm = rng.random() < 0.4
+        M0 = torch.randn(n, n, dtype=dtype, generator=g)
+        if herm:
+            M0 = M0 + M0.transpose(-2, -1).conj()
+        else:
+            M0 = M0 + 2.0 * torch.triu(torch.ones(n, n, dtype=dtype), 1)        # asymmetry of the order of the entries
+        mat = amp * M0
+        info = {"n": n, "amplitude": amp, "dtype": str(dtype), "hermitian": herm, "generator_seed": g.initial_seed()}
+        ctx.count(("scale", rep, n, amp, str(dtype), herm))
+        try:
+            op = xt.LinearOperator.m(mat)
+        except Exception as e:
+            ctx.fail("oracle", "linop:scale:construct", info, repr(e)[:200], "an operator")
+            continue
+        if bool(op.is_hermitian) != herm:
+            ctx.fail("oracle", "linop:scale:hermitian-flag", info, bool(op.is_hermitian), herm)
+            continue
+        x = torch.randn(n, dtype=dtype, generator=g)
+        ref = mat.transpose(-2, -1).conj() @ x
+        for nm, y in (("rmv", op.rmv(x)), ("H.mv", op.H.mv(x))):
+            if not (y - ref).abs().max() <= 1e-12 * amp * 10:
+                ctx.fail("oracle", "linop:scale:%s" % nm, info, float((y - ref).abs().max()), "conjugate transpose product")
+                break
+        if not herm:
+            try:
+                xt.LinearOperator.m(mat, is_hermitian=True)
+                ctx.fail("oracle", "linop:scale:false-hermitian-claim-accepted", info, "no error", "RuntimeError")
+            except RuntimeError:
+                pass
+
+
 def check(ctx):
     import xitorch as xt
     cases, meta = [], []
     flags_cases(ctx, xt, cases, meta)
     expr_cases(ctx, xt, cases, meta)
     shape_oracle(ctx, xt)
+    scale_oracle(ctx, xt)
     failed, errors = coq_bool_cases("c11", HEADER, cases, chunk=300)
     ctx.coverage["traces_validated_against_impl"] += len(cases) - len(failed)
     for e in errors:
@@ -461,5 +504,6 @@ def check(ctx):
 def search(ctx):
     import xitorch as xt
     cases, meta = [], []
+    scale_oracle(ctx, xt)
     flags_cases(ctx, xt, cases, meta)
     expr_cases(ctx, xt, cases, meta)
